@@ -14,3 +14,4 @@ import PysamlModel.Props.C08
 #print axioms C08.C08_verify_return
 #print axioms C08.C08_response_args_meets_spec
 #print axioms C08.C08_response_args_registered
+#print axioms C08.C08_slo_all_meets_spec
